@@ -461,13 +461,13 @@ def stream_update_bounds(c):
 # (c) solved instances: the envelope oracle
 
 
-def check_envelope(c, case_desc, s, res_m, eps, where):
+def check_envelope(c, case_desc, s, res_m, eps, where, slack=0.0):
     """envelope of one non-critical target goal for one member; eps shaped (size, nsteps)"""
     n_bad = 0
     for cc in range(s.size):
         f = S.fvalue(s, res_m, cc)
         lo, hi = s.lo_at(cc), s.hi_at(cc)
-        scale = TOL * max(1.0, abs(hi - lo), s.nom_at(cc))
+        scale = TOL * max(1.0, abs(hi - lo), s.nom_at(cc)) + slack
         for i in range(len(f)):
             e = float(eps[cc][i])
             c.count()
@@ -519,6 +519,30 @@ def priorities_of(specs):
     return sorted({int(s.prio) for s in live}), live
 
 
+def inject_unattainable(rng, specs, highs):
+    """a target goal that cannot be fully met (violation > 0 at steps the model can still move),
+    with a nominal different from 1, and at a later priority a goal pushing the same quantity the
+    other way: the retained envelope of the first goal is then what holds the later solution"""
+    used = {int(s.prio) for s in specs}
+    free = [p for p in range(-4, 14) if p not in used]
+    pa, pc = sorted(rng.sample(free, 2))
+    uid = max(s.uid for s in specs) + 1
+    var = rng.choice(["x", "x", "y"])
+    lo, hi = S.RANGES[var]
+    far = rng.choice([0.6, 0.8, 0.9])
+    nom = rng.choice([10.0, 5.0, 10.0, 0.5])
+    order = 1 if highs else rng.choice([1, 2])
+    if rng.random() < 0.5:
+        ga = GoalSpec(terms=[(var, 1.0)], fk="g%d" % uid, tmin=("s", far * hi), lo=[lo], hi=[hi], rdef=False,
+                      nom=[nom], prio=pa, order=order, uid=uid)
+        gc = GoalSpec(terms=[(var, 1.0)], fk="g%d" % (uid + 1), prio=pc, order=1, uid=uid + 1)
+    else:
+        ga = GoalSpec(terms=[(var, 1.0)], fk="g%d" % uid, tmax=("s", far * lo), lo=[lo], hi=[hi], rdef=False,
+                      nom=[nom], prio=pa, order=order, uid=uid)
+        gc = GoalSpec(terms=[(var, -1.0)], fk="g%d" % (uid + 1), prio=pc, order=1, uid=uid + 1)
+    specs.extend([ga, gc])
+
+
 def stream_solved(c, N):
     K = S.problem_classes()
     rng = c.rng
@@ -530,6 +554,8 @@ def stream_solved(c, N):
         n = len(inst["times"])
         specs = S.gen_goal_set(rng, n, keep, orders=(1,) if highs else (1, 2), allow_equal=False,
                                allow_relax=not keep)
+        if variant == "GP" and not keep and rng.random() < 0.35:
+            inject_unattainable(rng, specs, highs)
         prios, live = priorities_of(specs)
         opts = {}
         cr = 0.0
@@ -575,6 +601,26 @@ def stream_solved(c, N):
                                 continue
                             eps = eps_array(res[m], name, s.size, n if kind == "path" else 1)
                             check_envelope(c, desc, s, res[m], eps, "(priority %d seen at priority %d)" % (prios[i], p))
+            # multi-pass without keep_soft: the envelope of every EARLIER goal, for the violation it
+            # reported at its own priority, also holds in this later solution (retained hard
+            # constraint; goal relaxation and constraint_relaxation are the configured slack)
+            if not keep:
+                for i in range(k):
+                    res_i = pr.snaps[i][1]
+                    gp = [s for s in live if int(s.prio) == prios[i]]
+                    for kind, gl in (("point", [s for s in gp if s.point is not None]),
+                                     ("path", [s for s in gp if s.point is None])):
+                        for j, s in enumerate(gl):
+                            if not s.is_target or s.crit:
+                                continue
+                            name = ("path_eps_%d_%d" if kind == "path" else "eps_%d_%d") % (i, j)
+                            for m in range(E):
+                                if name in res_i[m]:
+                                    eps = eps_array(res_i[m], name, s.size, n if kind == "path" else 1)
+                                    check_envelope(c, desc, s, res[m], eps,
+                                                   "(violation reported at priority %d, solution of priority %d)" % (prios[i], p),
+                                                   slack=s.relax + cr * s.nom_at(0))
+                                    c.hit("envelope/earlier-goal-on-later-solution")
             # critical goals: from their priority on
             for s in live:
                 if s.crit and int(s.prio) <= p:
